@@ -1,10 +1,137 @@
-/- driver handler for component Parse: requests whose first token belongs to it -/
+/-
+  driver handler for component Parse (C12/C13): parsers and writers.
+
+  requests (one line = one complete case; characters travel as decimal code points):
+
+    pp   <spec> <store> <cps>                 one parse on a fresh parser
+    pseq <spec> <store> <cps> ; <cps> ; …     consecutive parses on ONE parser (store threads)
+         spec  = polish|standard[:noauto][:nodrop][:raw][:fuel=N][:lim=N]
+                 raw = the code WITHOUT tools/fix_C13_1.diff (no entry guard)
+         store = - | [F:]i.s.a,i.s.a,…        (F: = a frozen store)
+         cps   = - | 78,97,49
+      answer per parse: ok <wire sentence> store=<store> | err:ParseError store=… | crash:<Kind> store=…
+    wp   <notation>/<format>/<dialect>[/dpB.iiB.miN] <wire sentence>     → ok <cps>
+    argstr <wire sentence> | <wire sentence> | …   (conclusion first)     → ok <cps>
+    fromargstr <spec> <cps>                    → ok <conclusion> | <premise> | … / err:ParseError / crash:<Kind>
+-/
 import Ptx.Wire
+import Ptx.Lang.Write
+import Ptx.Lang.ParsePolish
+import Ptx.Lang.ParseStandard
+import Ptx.Gen.Symbols
 namespace Ptx.Drv.Parse
+open Ptx Ptx.Wire Ptx.Sym Ptx.Parse Ptx.Write
+
+def showCps (l : List Chr) : String :=
+  if l.isEmpty then "-" else ",".intercalate (l.map toString)
+
+def parseCps (s : String) : Option (List Chr) :=
+  if s = "-" then some [] else (s.splitOn ",").mapM (·.toNat?)
+
+def showStore (st : Store) : String :=
+  let body := ",".intercalate (st.preds.map fun p => s!"{p.index}.{p.sub}.{p.arity}")
+  (if st.frozen then "F:" else "") ++ (if st.preds.isEmpty then "-" else body)
+
+def parsePredSpec (s : String) : Option Pred :=
+  match s.splitOn "." with
+  | [i, u, a] => do some ⟨← i.toInt?, ← u.toNat?, ← a.toNat?⟩
+  | _ => none
+
+def parseStore (s : String) : Option Store :=
+  let (frozen, body) := if s.startsWith "F:" then (true, (s.drop 2).toString) else (false, s)
+  if body = "-" then some ⟨[], frozen⟩
+  else do some ⟨← (body.splitOn ",").mapM parsePredSpec, frozen⟩
+
+structure Spec where
+  notn : String
+  cfg : Cfg
+  fuel : Nat
+
+def findParseTable (notn : String) : Option ParseTable :=
+  Gen.Symbols.parseTables.find? fun t => t.notn == notn && t.dialect == "default"
+
+def parseSpec (s : String) : Option Spec :=
+  match s.splitOn ":" with
+  | [] => none
+  | notn :: opts => do
+    let t ← findParseTable notn
+    let base : Cfg := { table := t, maxi := Gen.Symbols.maxi }
+    let step (acc : Option Spec) (o : String) : Option Spec := do
+      let sp ← acc
+      if o = "noauto" then some { sp with cfg := { sp.cfg with autoPreds := false } }
+      else if o = "nodrop" then some { sp with cfg := { sp.cfg with dropParens := false } }
+      else if o = "raw" then some { sp with cfg := { sp.cfg with guardEntry := false } }
+      else if o.startsWith "fuel=" then do some { sp with fuel := ← (o.drop 5).toString.toNat? }
+      else if o.startsWith "lim=" then do
+        let n ← (o.drop 4).toString.toNat?
+        some { sp with cfg := { sp.cfg with intMaxDigits := n } }
+      else none
+    opts.foldl step (some ⟨notn, base, 1000000000⟩)
+
+def runParse (sp : Spec) (store : Store) (inp : List Chr) : Outcome :=
+  if sp.notn = "standard" then parseStandard sp.cfg sp.fuel store inp
+  else parsePolish sp.cfg sp.fuel store inp
+
+def showOutcome : Outcome → String × Store
+  | .ok s st => (s!"ok {showSent s} store={showStore st}", st)
+  | .perr st => (s!"err:ParseError store={showStore st}", st)
+  | .crash k st => (s!"crash:{k.name} store={showStore st}", st)
+
+def findStringTable (notn fmt dialect : String) : Option StringTable :=
+  Gen.Symbols.stringTables.find? fun t => t.notn == notn && t.format == fmt && t.dialect == dialect
+
+def parseStdOpts (s : String) : Option StdOpts :=
+  match s.splitOn "." with
+  | [dp, ii, mi] =>
+    if dp.startsWith "dp" && ii.startsWith "ii" && mi.startsWith "mi" then do
+      some ⟨(dp.drop 2).toString == "1", (ii.drop 2).toString == "1", ← (mi.drop 2).toString.toNat?⟩
+    else none
+  | _ => none
+
+def handleWp (w : String) (r : Toks) : String :=
+  match parseSent r with
+  | some (s, []) =>
+    match w.splitOn "/" with
+    | notn :: fmt :: dialect :: rest =>
+      match findStringTable notn fmt dialect with
+      | none => "err:no-table"
+      | some t =>
+        if notn = "standard" then
+          match (match rest with | [o] => parseStdOpts o | [] => some {} | _ => none) with
+          | some o => "ok " ++ showCps (writeStandard t o s)
+          | none => "err:wire"
+        else "ok " ++ showCps (writePolish t s)
+    | _ => "err:wire"
+  | _ => "err:wire"
 
 /-- `none` = not my request -/
 def handle (ts : List String) : Option String :=
   match ts with
+  | ["pp", spec, store, cps] =>
+    some <| match parseSpec spec, parseStore store, parseCps cps with
+      | some sp, some st, some inp => (showOutcome (runParse sp st inp)).1
+      | _, _, _ => "err:wire"
+  | "pseq" :: spec :: store :: rest =>
+    some <| match parseSpec spec, parseStore store, (splitAt ";" rest).mapM (fun
+        | [c] => parseCps c
+        | _ => none) with
+      | some sp, some st, some inps =>
+        let outs := (parseSeq (runParse sp) st inps).map fun o => (showOutcome o).1
+        " ; ".intercalate outs
+      | _, _, _ => "err:wire"
+  | "wp" :: w :: r => some (handleWp w r)
+  | "argstr" :: r =>
+    some <| match (splitAt "|" r).mapM (fun ts => match parseSent ts with | some (s, []) => some s | _ => none) with
+      | some (c :: ps) => "ok " ++ showCps (argstr Gen.Symbols.argstrWriter ⟨ps, c⟩)
+      | _ => "err:wire"
+  | ["fromargstr", spec, cps] =>
+    some <| match parseSpec spec, parseCps cps with
+      | some sp, some inp =>
+        match fromArgstr { sp.cfg with table := Gen.Symbols.argstrParser } sp.fuel inp with
+        | .ok a _ => "ok " ++ " | ".intercalate ((a.conclusion :: a.premises).map showSent)
+        | .perr => "err:ParseError"
+        | .crash k => s!"crash:{k.name}"
+      | _, _ => "err:wire"
   | _ => none
 
 end Ptx.Drv.Parse
